@@ -541,3 +541,43 @@ def r_step_down(ctx):
     else:
         ctx.ok(inst, h.loc(cfg.nodes[accepted_entry].ast), 'every normal path from the accepted region entry passes the FOLLOWER transition')
     ctx.expect_min(2)
+
+
+@rule('R-vote-refusal-justified', 'a vote request is refused only for a Raft reason (stale term, candidate log behind, vote '
+                                  'already given, not a follower/candidate): an up-to-date candidate is never turned down')
+def r_vote_refusal(ctx):
+    P, R = ctx.P, ctx.R
+    ex, res0, entry = U.region_run(ctx, 'request_vote')
+    cfg = ex.cfg
+    msg = R.handler_msg_param
+    grants = [n.id for n in _grant_nodes(ctx, ex)]
+    ctx.require(grants, 'no grant event')
+    idx_pos, term_pos = journal_positions(P)
+    LT, LI = _log_last(R, term_pos), _log_last(R, idx_pos)
+    reasons = U.goal(ex, "%s['term'] < self.%s or %s['last_log_term'] < %s or (%s['last_log_term'] == %s and %s['last_log_index'] < %s) "
+                         "or self.%s is not None or self.%s not in (%s.FOLLOWER, %s.CANDIDATE)"
+                     % (msg, R.currentTerm, msg, LT, msg, LT, msg, LI, R.votedFor, R.raftState, R.state_class, R.state_class))
+    # end states: returns inside the region and the next type test (fall-through), without passing the grant
+    regs = U.regions(ctx)
+    nxt = [cid for k, lst in regs.items() for cid, e in lst if k != 'request_vote']
+    rets = [n.id for n in cfg.nodes if n.kind == 'stmt' and isinstance(n.ast, ast.Return)]
+    init = frozenset([ex.edge_literal(cfg.nodes[regs['request_vote'][0][0]], True), ex.tb.literal(U.parse_expr('self.%s is not None' % R.selfNode), True)])
+    res = ex.run(start=entry, init=init, avoid=grants, stop=rets + nxt + [cfg.exit.id], follow_exc=False)
+    n_end = 0
+    bad = None
+    for end in rets + nxt + [cfg.exit.id]:
+        for fs in res.facts_at(end):
+            n_end += 1
+            ctx.tick()
+            if not oracle.entails(fs, reasons):
+                bad = (end, fs)
+    inst = 'every refusal of a vote request has a Raft reason'
+    if bad is not None:
+        end, fs = bad
+        ctx.violation('%s:vote-refused-without-reason' % R.handler.qualname, R.handler.loc(cfg.nodes[end].ast) if cfg.nodes[end].ast is not None else R.handler.loc(),
+                      'a vote request is turned down on a path where none of {stale term, candidate log behind, already voted, leader} holds: a candidate with an up-to-date log '
+                      'can be refused by everybody and no leader is elected: %s' % res.path_str(end, fs), witness={'facts': U.facts_str(fs, 30)}, instance=inst)
+    else:
+        ctx.require(n_end >= 3, 'refusal paths not found')
+        ctx.ok(inst, R.handler.loc(cfg.nodes[entry].ast), '%d refusing path classes, each entails a refusal reason' % n_end)
+    ctx.expect_min(1)
